@@ -25,9 +25,9 @@ def _count(k, n=1):
     COUNTS[k] = COUNTS.get(k, 0) + n
 
 
-def _fail(where, b):
+def _fail(where, b, prop="C07"):
     if len(FAILURES) < 50:
-        FAILURES.append({"where": where, "what": b.what, "detail": b.detail})
+        FAILURES.append({"where": where, "what": b.what, "detail": b.detail, "prop": prop})
 
 
 def reset():
@@ -44,13 +44,17 @@ def _sampler_post(name):
         _count("boundary_" + name)
         try:
             monitors.tree_wellformed(result, expect_idxs=OLD.idxs)
-            if CHECK_REBUILD[0] and DATA_BY_IDX:
+        except Broken as b:
+            _fail("%s.sample_tree" % name, Broken("%s returned a tree that breaks: %s" % (name, b.what), b.detail), "C07")
+            return True
+        if CHECK_REBUILD[0] and DATA_BY_IDX:
+            try:
                 st = {}
                 monitors.rebuild_equal(result, DATA_BY_IDX, TREE_DISTS, stats=st)
                 _count("boundary_rebuild")
                 _count("boundary_outside_window", st.get("outside_window", 0))
-        except Broken as b:
-            _fail("%s.sample_tree" % name, Broken("%s returned a tree that breaks: %s" % (name, b.what), b.detail))
+            except Broken as b:
+                _fail("%s.sample_tree" % name, Broken("%s returned a tree whose %s" % (name, b.what), b.detail), "C06")
         return True
 
     return post
